@@ -77,6 +77,25 @@ def mk_se(tu):
     return SymExec(tu, own=lambda f: f['q'].startswith('rkcommon::'), inline_stmt=follow_c11)
 
 
+def is_followed_helper(tu, f, class_fns, follow):
+    """private member that the path summariser splices into its callers and that some other member of the class calls:
+    it is never an entry point, so it is analysed in its callers' context only"""
+    if f.get('access') != 'private' or f.get('ctor') or f.get('dtor') or not follow(f):
+        return False
+    for g_ in class_fns:
+        if g_ is f:
+            continue
+        cfg = tu.cfg(g_)
+        if cfg is None:
+            continue
+        for b, i, x in cfg.stmts():
+            if x.get('kind') in ('CXXMemberCallExpr', 'CallExpr', 'CXXOperatorCallExpr'):
+                sd = tu.sd(x)
+                if (sd.get('def') or sd.get('d')) == f['id']:
+                    return True
+    return False
+
+
 def norm_type(t):
     return t.replace('const ', '').replace('&', '').strip()
 
@@ -249,6 +268,10 @@ class WrapperAnalysis:
                     return ('new', args[0][2], args[0][1])
                 return ('unknown', v)
             if cty.startswith('std::vector<'):
+                if len(args) == 1:
+                    a0 = args[0]
+                    if not (isinstance(a0, tuple) and a0[0] == 'construct'):
+                        return ('sized', a0)        # vector(n): n value-initialised elements
                 if len(args) == 2:
                     a, b = args
                     if isinstance(a, tuple) and a[0] == 'call' and last(a[1]) == 'begin':
@@ -378,6 +401,7 @@ class WrapperAnalysis:
             src = {}
             alias = {}
             did_setptr = {o: False for o in tracked}
+            last_call = {}
             mutated = {o: [] for o in tracked}
             copied_from = set()
 
@@ -440,6 +464,7 @@ class WrapperAnalysis:
                         copied_from.add(a0)
                     continue
                 if ev.kind == 'call':
+                    last_call[id(ev.node)] = ev
                     name = ev.how or ''
                     if name == SETPTR:
                         X = ev.place
@@ -509,7 +534,20 @@ class WrapperAnalysis:
                         continue
                     h = how[4:] if how.startswith('arg:') else how
                     whole = (ev.place == ('field', X, M))
-                    if whole and how in MUT_EMPTY or (whole and how == 'reset' and not (ev.value or ())):
+                    # swap: the owner takes over the other operand's buffer (an empty temporary: emptied and released)
+                    swapped = None
+                    if whole and how == 'swap' and ev.value:
+                        swapped = unver(ev.value[0])
+                    elif whole and how == 'arg:swap':
+                        lc = last_call.get(id(ev.node))
+                        swapped = lc.place if lc is not None else None
+                    if swapped is not None and self.describe(swapped) == ('empty',):
+                        st[X] = 'E'
+                        src[(X, M)] = ('empty',)
+                    elif swapped is not None:
+                        st[X] = 'D'
+                        src[(X, M)] = self.describe(swapped)
+                    elif whole and how in MUT_EMPTY or (whole and how == 'reset' and not (ev.value or ())):
                         st[X] = 'E'
                         src[(X, M)] = ('empty',)
                     elif whole and how == 'shrink_to_fit' and st[X] == 'E':
@@ -531,8 +569,10 @@ class WrapperAnalysis:
                             src[(X, M)] = ('sized', unver(ev.value[0]) if ev.value else None)
                         else:
                             src[(X, M)] = ('unknown', how)
-                        if h not in MUT_KNOWN and not how.startswith('arg:'):
-                            unknown_mut[X] = ev
+                        if (h not in MUT_KNOWN and not how.startswith('arg:')) or \
+                                (how.startswith('arg:') and h not in ('swap', 'move', 'forward', 'operator=', 'assign') and
+                                 not (ev.node.get('kind') in ('CXXConstructExpr', 'CXXTemporaryObjectExpr'))):
+                            unknown_mut[X] = ev     # handed by non-const reference to a function whose effect on the buffer is not known
                     dirty_by[X] = ev
                     continue
             if path.term[0] == 'throw':
@@ -629,8 +669,12 @@ class WrapperAnalysis:
                 return
             if st[X] == 'D' and owners:
                 d = dirty_by.get(X)
-                findings.append(Finding('R-C11-2', 'emptied-view', 'the owner was given new contents (%s) but the view is reset to (nullptr, 0) '
-                                        'instead of being re-derived from it' % (self.tu.show(d.node) if d is not None and d.node else '?'), ev.node))
+                kinds = {v[0] for (o, mm), v in src.items() if o == X}
+                known_contents = bool(kinds & {'range', 'copy', 'copyof', 'sized', 'new', 'bad-range'})
+                findings.append(Finding('R-C11-2', 'emptied-view', ('the owner was given new contents (%s) but the view is reset to (nullptr, 0) '
+                                        'instead of being re-derived from it' if known_contents else
+                                        'the owner was changed by `%s`, whose effect on its contents is not modelled, and the view is then reset to '
+                                        '(nullptr, 0)') % (self.tu.show(d.node) if d is not None and d.node else '?'), ev.node, not known_contents))
                 return
             st[X] = 'S'
             return
@@ -802,6 +846,8 @@ def check_wrappers(ctx, tu, tag=''):
         for f in sorted(fs, key=lambda f: (f['l'], f['fty'])):
             if f.get('dtor'):
                 continue
+            if is_followed_helper(tu, f, fs, follow_c11):
+                continue      # a private helper is judged inside its callers' paths (with their conditions and allocations)
             generated = bool(f.get('implicit') or (f.get('defaulted') and (f.get('ctor') in ('copy', 'move') or f.get('assign'))))
             outs, findings = wa.analyse(f, r)
             nfun += 1
